@@ -726,3 +726,70 @@ Example timer_failure_example :
   /\ time_guard false true (format_event Full o (Thr [] [])) em = OErr (str "12:") (errline m)
   /\ records false (gev_of (time_guard false true (format_event Full o (Thr [] []))) em) = [].
 Proof. vm_compute. auto 6. Qed.
+
+(** ** Span events reconfigured at run time *)
+
+Lemma rstep_point_spec : forall timing st x, point_spec (r_cfg st) x (fst (rstep false timing st x)).
+Proof.
+  intros timing st x. unfold point_spec. destruct x as [[em|k m scope]|id m scope|id m scope|sc]; simpl.
+  - reflexivity.
+  - destruct (lifecycle_on (r_cfg st) k); [eexists; reflexivity | reflexivity].
+  - destruct (sc_new (r_cfg st)); [eexists; reflexivity | reflexivity].
+  - unfold close_emissions. destruct (sc_close (r_cfg st)); [eexists; reflexivity | reflexivity].
+  - reflexivity.
+Qed.
+
+Lemma rstep_cfg : forall gated timing st x,
+  r_cfg (snd (rstep gated timing st x)) = match x with RReconf sc' => sc' | _ => r_cfg st end.
+Proof.
+  intros gated timing st x. destruct x; simpl; try reflexivity.
+  destruct (timing && sc_close (r_cfg st))%bool; reflexivity.
+Qed.
+
+(** every history with reconfigurations, from every state: each op yields what the clause says under the configuration
+    current at that moment *)
+Theorem reconf_each_point_one_record : forall timing ops st,
+  Forall2 (fun scx ems => point_spec (fst scx) (snd scx) ems)
+          (combine (cfgs_at (r_cfg st) ops) ops) (rtrace false timing st ops).
+Proof.
+  intros timing ops. induction ops as [|x t IH]; intros st; simpl; [constructor|].
+  pose proof (rstep_point_spec timing st x) as H1. pose proof (rstep_cfg false timing st x) as H2.
+  destruct (rstep false timing st x) as [ems st'] eqn:E. simpl in *. constructor; [exact H1|].
+  rewrite <- H2. apply IH.
+Qed.
+
+(** the close record of a span: exactly one whenever CLOSE is configured when it closes, WHETHER OR NOT the span carries
+    [Timings]; the extension decides only the two duration fields *)
+Lemma reconf_close_record : forall timing st id m scope, sc_close (r_cfg st) = true ->
+  fst (rstep false timing st (RClose id m scope)) = [Em m scope (close_flds (has_timings st id))].
+Proof. intros timing st id m scope H. simpl. unfold close_emissions. rewrite H. reflexivity. Qed.
+
+(** [Timings] is decided at creation by the configuration of that moment *)
+Lemma reconf_timings_at_creation : forall gated timing st id m scope,
+  has_timings (snd (rstep gated timing st (RNew id m scope))) id = (timing && sc_close (r_cfg st) || has_timings st id)%bool.
+Proof.
+  intros gated timing st id m scope. simpl. destruct (timing && sc_close (r_cfg st))%bool; simpl; [|reflexivity].
+  unfold has_timings. simpl. rewrite N.eqb_refl. reflexivity.
+Qed.
+
+(** without reconfiguration the history model is the static one *)
+Definition static_rop (x : op) : bool := match x with OpSpan LNew _ _ | OpSpan LClose _ _ => false | _ => true end.
+Lemma rtrace_static : forall gated timing ops st, forallb static_rop ops = true ->
+  concat (rtrace gated timing st (map ROp ops)) = flat_map (expand (r_cfg st) timing) ops.
+Proof.
+  intros gated timing ops. induction ops as [|x t IH]; intros st H; simpl in *; [reflexivity|].
+  apply andb_prop in H. destruct H as [_ H]. rewrite (IH st H). reflexivity.
+Qed.
+
+(** the witness for the gated shape (seeded C13-J): span 0 is created with no span events configured, CLOSE is switched on
+    through the reload handle, the span closes: the tree's shape writes the plain [close] record, the gated one NOTHING;
+    a span created after the switch gets its record (with the timing fields) under both. *)
+Definition reconf_history (m : emeta) (s0 s1 : span) : list rop :=
+  [RNew 0 m [s0]; RReconf (SpanCfg false false false true); RNew 1 m [s0; s1]; RClose 1 m [s0; s1]; RClose 0 m [s0]].
+
+Lemma reconf_gated_witness : forall m s0 s1,
+  rexpand false true (SpanCfg false false false false) (reconf_history m s0 s1)
+    = [Em m [s0; s1] (close_flds true); Em m [s0] (close_flds false)]
+  /\ rexpand true true (SpanCfg false false false false) (reconf_history m s0 s1)
+    = [Em m [s0; s1] (close_flds true)].
+Proof. intros. split; reflexivity. Qed.
